@@ -83,6 +83,7 @@ type EffectClause struct {
 	If       string // filter on the `every` event: only events for which it holds are obliged
 	ifFn     string
 	oldFns   []string
+	History  bool // `history every P where C`: C is assumed when an event matching P is recorded (see hist.go)
 }
 
 type MethodSelector struct {
@@ -775,6 +776,9 @@ func (e *Engine) effectObligations(sp *ssa.Package, fc *FuncContract, fn *ssa.Fu
 		return nil, false
 	}
 	for _, ec := range fc.EffectCl {
+		if ec.History {
+			continue // assumed while the events were recorded
+		}
 		wf := sp.Func(ec.whereFn)
 		if wf == nil {
 			panic(unsupported{"missing lowered effect condition " + ec.whereFn})
